@@ -141,6 +141,23 @@ func TestC09(t *testing.T) {
 					addErr(pr.dialOnce(side, id))
 				case "accept-nodial":
 					addErr(pr.acceptOnce(side, id, 300*time.Millisecond))
+				case "dial-burst-noaccept":
+					// 160 dials at once to distinct ids that nobody accepts: every one fails within the window;
+					// the pairs on fresh ids that follow must be unaffected
+					var wg sync.WaitGroup
+					var okN atomic.Int32
+					for k := 0; k < 160; k++ {
+						wg.Add(1)
+						bid := nextID()
+						go func() {
+							defer wg.Done()
+							if pr.dialOnce(side, bid) == "" {
+								okN.Add(1)
+							}
+						}()
+					}
+					wg.Wait()
+					addErr(fmt.Sprintf("burst-ok: %d", okN.Load()))
 				case "accept-twice":
 					// the same id announced twice, one after the other, inside one pending window, and
 					// nobody dials; then both windows run out
